@@ -19,6 +19,7 @@ CORPUS = {
     "nested": '<svg xmlns="http://www.w3.org/2000/svg" viewBox="0 0 20 20"><svg x="2" y="2" width="10" height="10" viewBox="0 0 5 5"><rect width="5" height="2" fill="blue"/></svg><ellipse cx="5" cy="15" rx="3" ry="2" style="fill:lime;stroke:black;stroke-width:0.5"/></svg>',
     "noise": '<?xml version="1.0"?><svg xmlns="http://www.w3.org/2000/svg" xmlns:foo="http://example.com/foo" viewBox="0 0 20 20" foo:bar="1"><title>t</title><?pi x?><!-- c --><symbol><rect width="20" height="20"/></symbol><foo:el/><metadata/><path d="M1,1 L9,1 L9,9 L1,9 Z M3,3 L7,3 L7,7 L3,7 Z" fill-rule="evenodd" fill-opacity="0.5"/><desc>d</desc></svg>',
     "gradient": '<svg xmlns="http://www.w3.org/2000/svg" xmlns:xlink="http://www.w3.org/1999/xlink" viewBox="0 0 20 20"><defs><linearGradient id="a" x2="0.5"><stop offset="0" stop-color="red"/><stop offset="1" stop-color="blue" style="stop-opacity:0.5"/></linearGradient><linearGradient id="b" xlink:href="#a" gradientTransform="rotate(90)"/></defs><g transform="translate(2,3)" style="fill:url(#b)"><rect width="6" height="6"/><rect x="7" width="3" height="6" style="fill:url(#a)" opacity="0"/></g></svg>',
+    "rootpaint": '<svg xmlns="http://www.w3.org/2000/svg" viewBox="0 0 20 20" fill="red" fill-opacity="0.5"><g opacity="0.5"><rect x="1" y="1" width="6" height="6"/><rect x="4" y="4" width="6" height="6" fill="blue"/></g><g><circle cx="14" cy="14" r="3"/></g></svg>',
     "inherit": '<svg xmlns="http://www.w3.org/2000/svg" viewBox="0 0 20 20" fill="green"><g style="stroke:red;stroke-width:2" fill="black" opacity="0.5"><rect x="2" y="2" width="6" height="6" fill="black"/><g fill="none"><rect x="5" y="5" width="6" height="6" stroke="none"/></g></g><clipPath id="c"><rect width="4" height="20"/></clipPath><rect width="20" height="3" y="12" clip-path="url(#c)"/></svg>',
 }
 
@@ -36,9 +37,9 @@ def call(svg, op, mode):
     if op == "round_floats":
         return svg.round_floats(2, **kw)
     if op == "set_attributes":
-        return svg.set_attributes((("width", "10"), ("data-x", "y")), **kw)
+        return svg.set_attributes((("fill", "lime"), ("data-x", "y")), xpath="//svg:g | //svg:rect", **kw)
     if op == "remove_attributes":
-        return svg.remove_attributes(("width",), **kw)
+        return svg.remove_attributes(("width", "fill"), xpath="/svg:svg | //svg:g", **kw)
     if op == "xpath":
         return svg.xpath("//svg:path")
     if op == "tolerance":
@@ -179,7 +180,7 @@ def run(out, tier):
         cov["exhaustive"] = True
         cov["rule"] = ("all histories of length 1 and 2 over %d (operation, mode) pairs (exhaustive) plus "
                        "histories of length 3..8 drawn by TLC -simulate from PicoObject.tla, each on documents "
-                       "of a 6-document corpus, executed directly and with re-parse between steps; "
+                       "of a 7-document corpus, executed directly and with re-parse between steps; "
                        "non-trivial = history ran to its end in both chains and every clause was evaluated"
                        % (2 * len(EDITORS + MUTATORS) + len(QUERIES)))
         for r_, v in zip(recs, verdicts):
